@@ -211,8 +211,12 @@ struct Tester
         if (pos != std::string::npos)
         {
             // first blank-delimited token, e.g. heap-use-after-free, SEGV, ABRT
+            // ("attempting double-free ..." / "attempting free ..." are named by their second word)
+            size_t from = pos + 25;
+            if (err.compare(from, 11, "attempting ") == 0)
+                from += 11;
             std::string k;
-            for (size_t i = pos + 25; i < err.size() && err[i] != ' ' && err[i] != '\n'; i++)
+            for (size_t i = from; i < err.size() && err[i] != ' ' && err[i] != '\n'; i++)
                 k += (isalnum(static_cast<unsigned char>(err[i])) || err[i] == '-' || err[i] == '_') ? err[i] : '_';
             return "asan:" + k;
         }
